@@ -35,7 +35,7 @@ fn library_code(rate: usize, k: usize) -> AR4JACode {
     AR4JACode::new(r, s)
 }
 
-struct Tables {
+pub struct Tables {
     theta: Vec<usize>,
     phi: Vec<Vec<usize>>,
 }
